@@ -715,6 +715,15 @@ def o_c10(recs):
                 exp_refs = dict(refs); exp_refs[n] = cur; must = "ok"
             else:
                 must = "refuse"
+        elif st.name == "branch-flags":
+            # a positional name, --list, --rename, --delete: exactly one mode may be given
+            modes = sum([any(not x.startswith(b"--") for x in st.argv[1:] if x != b"--"), b"--list" in st.argv,
+                         any(x.startswith(b"--rename=") for x in st.argv), any(x.startswith(b"--delete=") for x in st.argv)])
+            names = [x for x in st.argv[1:] if not x.startswith(b"--")]
+            if modes != 1 or len(names) > 1:
+                must = "refuse"
+            else:
+                continue
         elif st.name == "branch-delete":
             n = st.argv[1].split(b"=", 1)[1]
             if n != hb and n in refs:
@@ -813,9 +822,16 @@ def o_c11(recs):
             ent = [l.split(b" ", 2) for l in cur]
             if [e[1] for e in ent] != [b"%d" % k for k in range(len(ent))]:
                 bad.append((i, "reflog positions are not 0..n-1"))
-            nlines = len([l for l in (b.hlog or b"").split(b"\n") if l])
+            jl = [l for l in (b.hlog or b"").split(b"\n") if l]
+            nlines = len(jl)
             if len(ent) != nlines:
                 bad.append((i, "reflog shows %d entries, the journal holds %d" % (len(ent), nlines)))
+            else:
+                # entry n shows the first seven digits of the id the n-th newest journal line records
+                want = [l.split(b" ")[1][:7] for l in reversed(jl) if len(l.split(b" ")) > 1]
+                if [e[0] for e in ent] != want:
+                    k = next(k for k in range(len(want)) if k >= len(ent) or ent[k][0] != want[k])
+                    bad.append((i, "reflog shows id %r at position %d, the journal records %r there" % (ent[k][0], k, want[k])))
             if last is not None and b.hlog.startswith(last[0]):
                 old = [e[0] + b" " + e[2] for e in last[1]]
                 new = [e[0] + b" " + e[2] for e in ent]
